@@ -689,6 +689,10 @@ func randomScript(rng *vx.Rng, idx int) *scriptCase {
 		running = true
 	}
 	startPending := false // a Start may still be blocked (issued while workers could be alive)
+	// a Shutdown issued while the dispatcher is held blocks in SignalShutdown with the pool lock held for writing; Submits
+	// then queue up as readers and sync.RWMutex admits ALL of them when that Shutdown unlocks, before any later writer; the
+	// model's run-to-quiescence scheduler may let a Start in between: no Start until the hold is released
+	sdBlocked := false
 	for len(sc.Script) < n {
 		x := rng.Intn(100)
 		// while the dispatcher is held at its yield point the outcome must not depend on how several pushes interleave
@@ -706,7 +710,13 @@ func randomScript(rng *vx.Rng, idx int) *scriptCase {
 		case x < 60:
 			sc.Script = append(sc.Script, dirT{K: "shutdown"})
 			running = false
+			if hd {
+				sdBlocked = true
+			}
 		case x < 68:
+			if sdBlocked {
+				continue
+			}
 			sc.Script = append(sc.Script, dirT{K: "start"})
 			if gateClosed || hs || hd {
 				startPending = true
@@ -739,6 +749,9 @@ func randomScript(rng *vx.Rng, idx int) *scriptCase {
 		default:
 			if !sc.Cancel && (hd || (!hs && !gateClosed)) {
 				hd = !hd
+				if !hd {
+					sdBlocked = false
+				}
 				sc.Script = append(sc.Script, dirT{K: "holddisp", B: hd})
 				if !gateClosed && !hs && !hd {
 					startPending = false
@@ -1067,6 +1080,11 @@ func main() {
 			st.Fail(map[string]any{"kind": "free", "case": fc, "problems": res.Problems})
 		}
 	}
+	st.Extra["c16_worker_counts_sampled"] = map[string]any{
+		"num_cpu": runtime.NumCPU(), "machine_derived": machineWorkerCounts(), "default_when_option_left_out": 2 * runtime.NumCPU(),
+		"note": "the pool model and its theorems are parametric in the worker count n >= 1; the lockstep correspondence now also samples large n: every value of machine_derived and the default, each with all workers busy at Shutdown (family allbusy-*), besides 1..4",
+	}
+	st.Extra["c16_options_varied"] = "WithWorkerCount (left out / 1..4 / around and above NumCPU, 2*NumCPU, 4*NumCPU), WithCancelPendingTasksOnShutdown and WithPanicOnSubmitAfterShutdown (left out / true / false / repeated, last wins), constructor workerpool.New or Group.CreatePool; the model configuration is computed in Coq from the option list (Options.v)"
 	if err := cf.Write(*out); err != nil {
 		vx.Die("write cases: %v", err)
 	}
